@@ -262,3 +262,52 @@ func WriteFP(dir string, variantPkg, basePkg, src string) (string, error) {
 	p := filepath.Join(d, basePkg+".go")
 	return p, os.WriteFile(p, []byte(src), 0o644)
 }
+
+// Starred returns a copy of f (as package pkg) in which every literal the default policy
+// documents as abstracted is replaced by a canonical one (edit.CanonLiterals).
+func Starred(f *gen.File, pkg string) (*gen.File, error) {
+	c := &gen.File{Pkg: pkg, Prelude: gen.Prelude(pkg), Funcs: append([]gen.Func{}, f.Funcs...)}
+	p, err := edit.Parse(c)
+	if err != nil {
+		return nil, err
+	}
+	for i := range c.Funcs {
+		if p.CanonLiterals(i) > 0 {
+			c.Funcs[i].Text = p.Print(i)
+		}
+	}
+	return c, nil
+}
+
+// LiteralOnly decides, by execution, whether the behavioural difference between base and
+// variant functions named in names is due only to abstracted literals: both files are
+// literal-canonicalised and run again; a pair that is no longer separated differs only in
+// such literals. Returns name -> true (literal-only) / false; names missing = undecided.
+func LiteralOnly(dir string, base *gen.File, variant *Variant, names []string) map[string]bool {
+	out := map[string]bool{}
+	bs, err1 := Starred(base, base.Pkg+"s")
+	vs, err2 := Starred(variant.File, variant.File.Pkg+"s")
+	if err1 != nil || err2 != nil {
+		return out
+	}
+	want := map[string]bool{}
+	for _, n := range names {
+		want[n] = true
+	}
+	sv := &Variant{File: vs, Edits: make([][]edit.Applied, len(vs.Funcs)), Rename: variant.Rename}
+	for i := range sv.Edits {
+		sv.Edits[i] = []edit.Applied{{Kind: "starred"}}
+	}
+	o, err := Run(dir, bs, []*Variant{sv}, func(fn gen.Func) bool { return want[fn.Name] })
+	if err != nil || o.Res == nil {
+		return out
+	}
+	for _, n := range names {
+		if !o.Res.Decided(bs.Pkg, vs.Pkg, n) {
+			continue
+		}
+		_, _, _, sep := o.Res.Separated(bs.Pkg, vs.Pkg, n)
+		out[n] = !sep
+	}
+	return out
+}
